@@ -52,11 +52,23 @@ def asksSequencer (c : Cfg) (n : Node) : Bool :=
   !Producer.pendingRefuses c.p n.prod && (Producer.prevInfo c.p n.prod.store).isSome &&
   (n.prod.store.getBlock (n.prod.store.height + 1)).isNone
 
+/-- what the sequencing layer's clock shows when it stamps the answer of this step's `GetNextBatch`: the real single
+sequencer stamps `time.Now()` (`real`: later than everything before); a sequencing layer with a coarse clock (the time of
+the DA block a batch was read from, second resolution, …) answers with the SAME time as the previous block (`same`); a
+clock that stepped backwards answers with an EARLIER one (`back`) -/
+inductive Clock | real | same | back
+  deriving Repr, DecidableEq, Inhabited
+
+def stamp (c : Cfg) (n : Node) : Clock → Nat
+  | .real => c.p.genesisTime + (n.tick + 1) * 1000
+  | .same => n.prod.lastState.lastTime
+  | .back => n.prod.lastState.lastTime - 1
+
 /-- one production step with the real single sequencer behind it; `ex` = what the execution layer answers to
 `ExecuteTxs` during this step (`.fail`: the step stops there with an error; a block freshly built from the batch has
-been saved early by then and is reused by the next step) -/
-def produce (c : Cfg) (n : Node) (ex : Producer.ExecResp := .ok) : Node × List FW × Producer.Outcome :=
-  let ts := c.p.genesisTime + (n.tick + 1) * 1000
+been saved early by then and is reused by the next step); `clk` = the sequencing layer's clock -/
+def produce (c : Cfg) (n : Node) (ex : Producer.ExecResp := .ok) (clk : Clock := .real) : Node × List FW × Producer.Outcome :=
+  let ts := stamp c n clk
   if asksSequencer c n then
     let (q', out) := Queue.getNext key c.qc n.q c.qc.id
     let (txs, ws0) : List Bytes × List FW := match out with
@@ -67,6 +79,32 @@ def produce (c : Cfg) (n : Node) (ex : Producer.ExecResp := .ok) : Node × List 
   else
     let (p', ws, o) := Producer.publish c.p n.prod .absent ex
     ({ n with prod := p', tick := n.tick + 1 }, ws.map FW.st, o)
+
+/-! ### datastore write errors (outside the property's quantifier; modelled for the correspondence check)
+
+`Flow.reap` with a failing queue `Put` is an operation of the histories (`Op.reapPutFails`: the hand-off is refused and
+nothing changes).  The two below break what the property promises and are therefore NOT operations of the histories the
+theorems quantify over; the driver executes them so that the real code's behaviour is pinned down. -/
+
+/-- `Reaper.SubmitTxs` when the durable mark of the FIRST transaction of the batch fails (`seenStore.Put` error: logged,
+ignored): the hand-off stands, that transaction stays unmarked and is handed over again with the next response -/
+def reapSeenFault (c : Cfg) (n : Node) (mempool : List Bytes) : Node × List FW :=
+  let newTxs := mempool.filter (fun t => !n.seen.contains t)
+  if newTxs.isEmpty then (n, [])
+  else
+    match Queue.submit key c.qc n.q c.qc.id newTxs with
+    | (q', .ok) =>
+      ({ n with q := q', seen := newTxs.tail.foldl addSeen n.seen }, FW.qput newTxs :: newTxs.tail.map FW.seen)
+    | _ => (n, [])
+
+/-- `produce` when the queue's `Delete` of the batch it hands out fails (`BatchQueue.Next`: "log the error but continue"):
+the batch is handed out and built into a block, its record stays in the queue's datastore — a restart reloads it and it is
+handed out (and included) a second time -/
+def produceDelFault (c : Cfg) (n : Node) : Node × List FW × Producer.Outcome :=
+  let r := produce c n
+  match r.2.1 with
+  | .qdel _ :: ws => ({ r.1 with q := { mem := r.1.q.mem, disk := n.q.disk } }, ws, r.2.2)
+  | _ => r
 
 /-- durable image -/
 structure Disk where
@@ -102,8 +140,10 @@ inductive Op
   | mempoolDrain (txs : List Bytes) -- a DRAINING mempool (`apps/testapp/kv` `GetTxs` empties its channel): `txs` is answered
                                    -- by exactly one `GetTxs` call, afterwards the mempool is empty
   | reap                           -- one `Reaper.SubmitTxs`
+  | reapPutFails                   -- one `Reaper.SubmitTxs` during which the queue's write-ahead `Put` returns an error
   | produce                        -- one `publishBlock`
   | produceFail                    -- one `publishBlock` during which `ExecuteTxs` fails (or the node dies in it, when a `restart` follows)
+  | produceSame                    -- one `publishBlock` whose `GetNextBatch` answer carries the SAME timestamp as the previous block
   | restart
   | crash (k : Nat)
   deriving Repr, Inhabited
@@ -131,7 +171,11 @@ def opStep (c : Cfg) (s : RunSt) : Op → Option RunSt
   | .mempoolDrain txs => some { s with mempool := txs, drain := true }
   | .reap => some { s with n := (reap c s.n s.mempool).1, before := diskOf s.n, ws := (reap c s.n s.mempool).2,
                            mempool := if s.drain then [] else s.mempool }
+  -- `AddBatch`: the `Put` comes before the append in memory, its error is returned: the hand-off is refused, the reaper
+  -- marks nothing; the draining `GetTxs` has handed its transactions out all the same
+  | .reapPutFails => some { s with before := diskOf s.n, ws := [], mempool := if s.drain then [] else s.mempool }
   | .produce => some { s with n := (produce c s.n).1, before := diskOf s.n, ws := (produce c s.n).2.1 }
+  | .produceSame => some { s with n := (produce c s.n .ok .same).1, before := diskOf s.n, ws := (produce c s.n .ok .same).2.1 }
   | .produceFail => some { s with n := (produce c s.n .fail).1, before := diskOf s.n, ws := (produce c s.n .fail).2.1 }
   | .restart => recover c s s.ws.length
   | .crash k => recover c s k
